@@ -183,6 +183,7 @@ func checkC14(P *Prog, r *Result) {
 
 	// ---- nested-from-parent ----
 	P.checkTagReachesNested(r, "C14/nested-from-parent")
+	P.checkFrontEndProviderNeverNil(r, "C14/front-end-provider-never-nil")
 	// which rendering of a request is read (query vs body, by method and media type) is part of "the same
 	// record through every front end": C15's source-selection table
 	shareRule(P, r, checkC15, "C15/dispatch-table", nil, "C14/source-selection", 4)
@@ -423,6 +424,7 @@ func checkC15(P *Prog, r *Result) {
 	P.checkListKeyAlwaysList(r, "C15/list-key-always-list")
 	// ---- empty-object: provider never a nil interface ----
 	P.checkProviderNonNil(r, "C15/empty-object")
+	P.checkProviderPassedThrough(r, "C15/front-end-provider-passed-through")
 	P.checkSourceOpenWhileRead(r)
 	// "exactly one top-level issue": the issue of an undecodable request is reported on a context whose catch flag is
 	// clean - a recycled context that still carries CanCatch swallows it and Parse returns nil (C01's rule)
@@ -1609,4 +1611,172 @@ func (P *Prog) checkEnvLeafFormula(r *Result, rule string) {
 	if n == 0 {
 		r.undecided(rule, "zenv provider Get", "-", "not found")
 	}
+}
+
+// checkFrontEndProviderNeverNil: a front end presents every record it has decoded - an empty one too - through its own
+// provider, the one that knows the source tag. Every function outside the package that declares DataProvider whose
+// result list has a DataProvider is looked at return by return (phis edge by edge): a nil provider constant may be
+// returned only together with a non-nil error/issue (the failure protocol). A nil provider on a success path makes
+// the struct pipeline substitute an EmptyDataProvider that has no source tag (fields of an empty query are named by
+// their zog tag or schema key, fields of a non-empty one by their query tag) and makes Ptr(Struct) read the record as
+// absent. The nil-for-empty convention of the in-package map provider is F17c, recorded under nested-from-parent.
+func (P *Prog) checkFrontEndProviderNeverNil(r *Result, rule string) {
+	home := pkgInternals
+	for _, fn := range P.Funcs {
+		pp := funcPkgPath(fn)
+		if fn.Blocks == nil || !inModule(pp) || pp == home || pp == modPath {
+			continue
+		}
+		res := fn.Signature.Results()
+		idx := -1
+		for i := 0; i < res.Len(); i++ {
+			if P.isDataProviderIface(res.At(i).Type()) {
+				idx = i
+			}
+		}
+		if idx < 0 {
+			continue
+		}
+		var bad []string
+		nret := 0
+		eachInstr(fn, func(b *ssa.BasicBlock, _ int, in ssa.Instruction) {
+			rt, ok := in.(*ssa.Return)
+			if !ok || idx >= len(rt.Results) {
+				return
+			}
+			rvs, okRV := retVals(rt)
+			if !okRV {
+				return
+			}
+			nret++
+			// the values returned along one incoming edge (results merged by phis of the return's block)
+			type row []ssa.Value
+			rows := []row{rvs}
+			if ph, isPhi := rvs[idx].(*ssa.Phi); isPhi && ph.Block() == b {
+				rows = nil
+				for e := range ph.Edges {
+					rw := make(row, len(rvs))
+					for j, v := range rvs {
+						if pj, ok := v.(*ssa.Phi); ok && pj.Block() == b && e < len(pj.Edges) {
+							rw[j] = pj.Edges[e]
+						} else {
+							rw[j] = v
+						}
+					}
+					rows = append(rows, rw)
+				}
+			}
+			for _, rw := range rows {
+				if !isNilConst(cvi(rw[idx])) && !isNilConst(rw[idx]) {
+					continue
+				}
+				failure := false
+				for j, v := range rw {
+					if j != idx && !isNilConst(v) {
+						failure = true // an error / issue that is not the nil constant accompanies it
+					}
+				}
+				if !failure {
+					bad = append(bad, "nil provider returned without an error at "+P.ipos(in))
+				}
+			}
+		})
+		if nret == 0 {
+			continue
+		}
+		if len(bad) > 0 {
+			r.bad(rule, fname(fn), P.pos(fn.Pos()), strings.Join(uniqSorted(bad), "; ")+": the struct pipeline replaces a nil provider by an empty provider without this front end's tag, and Ptr(Struct) reads the record as absent")
+		} else {
+			r.ok(rule, fname(fn), P.pos(fn.Pos()), fmt.Sprintf("%d return(s): a nil provider only together with an error or issue", nret))
+		}
+	}
+	r.floor(rule, 2)
+}
+
+// checkProviderPassedThrough: the function that turns an arbitrary input value into a provider hands a value that
+// already is a provider on as it is, whatever its reflect kind: the comma-ok assertion `val.(DataProvider)` dominates
+// every return that builds some other provider (only `val == nil` may be answered before it). zhttp's form/query
+// provider is a struct value, not a pointer: an assertion made only for pointer kinds wraps it into a struct provider
+// and every parameter of the request reads as absent.
+func (P *Prog) checkProviderPassedThrough(r *Result, rule string) {
+	shaped := func(fn *ssa.Function) bool {
+		if fn == nil || fn.Blocks == nil || funcPkgPath(fn) != pkgInternals || fn.Parent() != nil || len(fn.Params) != 1 {
+			return false
+		}
+		it, ok := fn.Params[0].Type().Underlying().(*types.Interface)
+		res := fn.Signature.Results()
+		return ok && it.NumMethods() == 0 && res.Len() == 2 && P.isDataProviderIface(res.At(0).Type())
+	}
+	// the value asserted is the parameter, or the loop variable that starts as the parameter (pointers followed in a loop)
+	var fromParam func(v ssa.Value, fn *ssa.Function, d int) bool
+	fromParam = func(v ssa.Value, fn *ssa.Function, d int) bool {
+		v = cv(v)
+		if v == ssa.Value(fn.Params[0]) {
+			return true
+		}
+		if ph, ok := v.(*ssa.Phi); ok && d < 4 {
+			for _, e := range ph.Edges {
+				if fromParam(e, fn, d+1) {
+					return true
+				}
+			}
+		}
+		return false
+	}
+	findTA := func(fn *ssa.Function) *ssa.TypeAssert {
+		var ta *ssa.TypeAssert
+		eachInstr(fn, func(_ *ssa.BasicBlock, _ int, in ssa.Instruction) {
+			if t, ok := in.(*ssa.TypeAssert); ok && t.CommaOk && fromParam(t.X, fn, 0) && P.isDataProviderIface(t.AssertedType) {
+				ta = t
+			}
+		})
+		return ta
+	}
+	for _, fn0 := range P.Funcs {
+		// the API-level entry (exported); an entry that only delegates (a tracing wrapper) is followed one step
+		if !shaped(fn0) || fn0.Object() == nil || !fn0.Object().Exported() || len(fn0.TypeArgs()) > 0 {
+			continue
+		}
+		fn := fn0
+		ta := findTA(fn)
+		if ta == nil {
+			eachInstr(fn0, func(_ *ssa.BasicBlock, _ int, in ssa.Instruction) {
+				if c, ok := in.(*ssa.Call); ok {
+					if g := callOf(c).static; g != nil && g != fn0 && shaped(g) && len(c.Call.Args) == 1 && cv(c.Call.Args[0]) == ssa.Value(fn0.Params[0]) && findTA(g) != nil {
+						fn = g
+					}
+				}
+			})
+			ta = findTA(fn)
+		}
+		if ta == nil {
+			r.bad(rule, fname(fn), P.pos(fn.Pos()), "an input that already is a DataProvider is not recognised: no comma-ok assertion of the parameter to DataProvider")
+			continue
+		}
+		var bad []string
+		eachInstr(fn, func(b *ssa.BasicBlock, _ int, in ssa.Instruction) {
+			rt, ok := in.(*ssa.Return)
+			if !ok {
+				return
+			}
+			rvs, okRV := retVals(rt)
+			if !okRV || len(rvs) != 2 || isNilConst(rvs[0]) || ta.Block().Dominates(b) {
+				return
+			}
+			for _, gd := range guardsOf(b) {
+				if bo, ok := gd.If.Cond.(*ssa.BinOp); ok && ((bo.Op == token.EQL && gd.True) || (bo.Op == token.NEQ && !gd.True)) {
+					if (fromParam(bo.X, fn, 0) && isNilConst(bo.Y)) || (fromParam(bo.Y, fn, 0) && isNilConst(bo.X)) {
+						return
+					}
+				}
+			}
+			bad = append(bad, P.ipos(in))
+		})
+		if len(bad) > 0 {
+			r.bad(rule, fname(fn), P.pos(fn.Pos()), "a provider is built for the input at "+strings.Join(bad, ", ")+" on a path that has not asked whether the input already is a DataProvider (the assertion at "+P.ipos(ta)+" is made for some kinds only): a front end's provider of another kind is wrapped and its record reads as empty")
+		} else {
+			r.ok(rule, fname(fn), P.pos(fn.Pos()), "the assertion to DataProvider dominates every return that builds another provider (val == nil excepted)")
+		}
+	}
+	r.floor(rule, 1)
 }
